@@ -326,6 +326,11 @@ class C06(PropertyCheck):
         yield dict(base, dicts=[u, [{"key": [0, 9], "logp": "-1"}]])
         yield dict(base, sos=-1, dicts=[u, [{"key": [-2, 1], "logp": "-1"}]])
         yield dict(base, dicts=[u, [{"key": [1, 1], "logp": "-1", "logb": "0"}], []])
+        # a valid table, but a chunk size < 1: RuntimeError expected
+        ok = {"kind": "table", "V": 3, "sos": 0, "B": 2, "hist": [[1, 2], [0, 1]], "chunks": [1], "idxs": [[0]],
+              "dicts": [u, [{"key": [0, 1], "logp": "-2"}]]}
+        yield dict(ok, bad_chunk=0)
+        yield dict(ok, bad_chunk=-3)
 
     # ------------------------------------------------------------------ implementation
     def run_impl(self, case):
@@ -365,11 +370,21 @@ class C06(PropertyCheck):
             out["hist_is_contiguous"] = bool(hist.is_contiguous())
             lm2 = LookupLanguageModel(V, sos)
             try:
-                lm2.load_state_dict(lm.state_dict())
+                # "saved and loaded into a freshly constructed instance": through the serialiser
+                buf = io.BytesIO()
+                torch.save(lm.state_dict(), buf)
+                buf.seek(0)
+                lm2.load_state_dict(torch.load(buf))
                 out["shape"] = {"N": lm2.max_ngram, "G": lm2.max_ngram_nodes, "S": lm2.max_direct_descendants}
             except Exception as e:
                 out["shape"] = {"error": type(e).__name__, "message": str(e)[:200]}
                 lm2 = None
+            if case.get("malformed") or case.get("bad_chunk"):
+                try:
+                    lm.calc_full_log_probs_chunked(hist, {}, case.get("bad_chunk", 0))
+                    out["bad_chunk"] = "returned"
+                except Exception as e:
+                    out["bad_chunk"] = type(e).__name__
             if not case.get("oov"):
                 out["full"] = tens3(lm(hist))
                 out["chunked"] = {str(c): tens3(lm.calc_full_log_probs_chunked(hist, {}, c)) for c in case["chunks"]}
@@ -622,6 +637,9 @@ class C06(PropertyCheck):
             return self.predicate_arpa(case, impl)
         self.internal_consistency(case, model)
         fails = []
+        if case.get("bad_chunk") is not None and impl.get("bad_chunk") != "RuntimeError":
+            fails.append((f"chunk_size={case['bad_chunk']} not rejected with RuntimeError: {impl.get('bad_chunk')}",
+                          "C06.chunk_size.not_rejected"))
         if case.get("malformed"):
             if impl.get("build_error") != "ValueError":
                 fails.append((f"malformed table not rejected with ValueError: {impl.get('build_error', 'built')}",
@@ -765,6 +783,20 @@ class C06(PropertyCheck):
         return t
 
     def shrink(self, case):
+        if case["kind"] == "arpa":
+            for k, v in (("entry", "fileobj"), ("ftype", "float"), ("token2id", False), ("logger", False),
+                         ("call", "keyword"), ("style", "fixed"), ("numeric_tokens", False),
+                         ("blank_lines", False), ("implicit", False)):
+                if case.get(k) != v:
+                    yield dict(case, **{k: v})
+            dicts = case["dicts"]
+            if len(dicts) > 1 and dicts[-2]:
+                yield dict(case, dicts=dicts[:-2] + [[{"key": e["key"], "logp": e["logp"]} for e in dicts[-2]]])
+            for n in range(len(dicts) - 1, -1, -1):
+                if len(dicts[n]) > 1:
+                    for i in range(len(dicts[n])):
+                        yield dict(case, dicts=dicts[:n] + [dicts[n][:i] + dicts[n][i + 1:]] + dicts[n + 1:])
+            return
         if case["kind"] != "table":
             return
         dicts = case["dicts"]
